@@ -413,6 +413,23 @@ def rich_models(draw, max_bodies=4, assets=True, defaults=True, frames=True, rep
           wrap(c, 0)
     framelist = []
     wrap(world, 0)
+    # The writer emits the direct children of a body before its <frame> children (C32 finding
+    # 'replicate-frame-geom-order'); most documents are therefore normalised so that frames follow the direct
+    # non-body children, which keeps the element order reproducible; 1 in 6 keeps the interleaved order.
+    if framelist and draw(st.integers(0, 5)) != 0:
+      def normalise(parent):
+        kids = list(parent)
+        first = [k for k in kids if k.tag not in ('frame', 'replicate', 'body')]
+        rest = [k for k in kids if k.tag in ('frame', 'replicate', 'body')]
+        for k in kids:
+          parent.remove(k)
+        for k in first + rest:
+          parent.append(k)
+        for k in rest:
+          normalise(k)
+      normalise(world)
+    elif framelist:
+      labels.add('frame-interleaved')
 
   # ---------------- replicate
   if replicate and draw(st.integers(0, 2)) == 0:
@@ -424,7 +441,7 @@ def rich_models(draw, max_bodies=4, assets=True, defaults=True, frames=True, rep
       rp.set('euler', fmt([draw(st.integers(-90, 90)) for _ in range(3)]))
     if draw(st.integers(0, 2)) == 0:
       rp.set('sep', draw(st.sampled_from(['_', '-', 'x'])))
-    shape = draw(st.sampled_from(['body', 'geoms', 'mixed', 'nested']))
+    shape = draw(st.sampled_from(['body', 'body', 'geoms', 'geoms', 'mixed', 'nested', 'nested']))
     nc = dict(contype='0', conaffinity='0') if not kw.get('contacts', True) else {}
     if shape in ('body', 'nested'):
       rb = ET.SubElement(rp, 'body', name='rb', pos=fmt([draw(num(-0.3, 0.3)) for _ in range(3)]))
